@@ -488,8 +488,10 @@ class MHSA(nn.Module):
     def forward(self, input: Tensor) -> Tensor:
         q_k_v = self.linear_qkv(input)
         q, k, v = einops.rearrange(q_k_v, "b s (z h d) -> z b h s d", h=self.heads, z=3)
+        # (no dropout in `eval()` mode: the functional has no `training` flag)
+        dropout_p = self.dropout_p if self.training else 0.0
         qkv = U.scaled_dot_product_attention(
-            q, k, v, dropout_p=self.dropout_p, is_causal=self.is_causal, mult=self.mult
+            q, k, v, dropout_p=dropout_p, is_causal=self.is_causal, mult=self.mult
         )
         qkv = einops.rearrange(qkv, "b h s d -> b s (h d)")
         return self.linear_o(qkv)  # type: ignore
